@@ -1313,6 +1313,103 @@ def r3_tour_order_laws(F, r):
         r.ok("evaluate_result: pairing", "not decided: the two directions are not written as tuple-building closures")
 
 
+TWM = "vrp_core::models::common::domain::TimeWindow::"
+
+
+def b1_break_and_window_laws(F, r):
+    """time window primitives: intersects <=> a.start <= b.end and b.start <= a.end (strict for the exclusive variant), contains <=> start <= t <= end; optional breaks:
+    rejected on route level iff the break belongs to another vehicle, on activity level iff it would be the very first activity"""
+    from .. import ordeval as oe
+
+    def relation(p, x, y):
+        for a in p.assumptions:
+            if len(a) == 3 and isinstance(a[2], str) and a[0] != "switch" and a[2] in "LEG":
+                if (a[0], a[1]) == (x, y):
+                    return a[2]
+                if (a[0], a[1]) == (y, x):
+                    return oe.rev(a[2])
+        return None
+    for name, strict in (("intersects", False), ("intersects_exclusive", True)):
+        fid = TWM + name
+        if fid not in F.fns:
+            raise AnchorError(fid)
+        it = oe.Interp(F, fid, {1: oe.ref(oe.sym("a")), 2: oe.ref(oe.sym("b"))}, fresh=True)
+        try:
+            paths = it.explore()
+        except oe.Undecided as e:
+            r.fail(f"TimeWindow::{name}", f"not evaluable: {e}", F.loc(fid))
+            continue
+        bad = None
+        for p in paths:
+            r1, r2 = relation(p, "a.start", "b.end"), relation(p, "b.start", "a.end")
+            other = [a for a in p.assumptions if len(a) == 3 and isinstance(a[2], str) and a[0] != "switch" and {a[0], a[1]} not in ({"a.start", "b.end"}, {"b.start", "a.end"})]
+            if other:
+                bad = f"compares {other[0][0]} with {other[0][1]}: two intervals intersect iff each starts before the other ends"
+                break
+            ok1 = None if r1 is None else (r1 == "L" or (r1 == "E" and not strict))
+            ok2 = None if r2 is None else (r2 == "L" or (r2 == "E" and not strict))
+            known = [x for x in (ok1, ok2) if x is not None]
+            want = all(known) and len(known) == 2 if p.ret == ("bool", True) else None
+            if p.ret == ("bool", True) and not (ok1 and ok2):
+                bad = f"answers true with a.start {'<=>'['LEG'.index(r1)] if r1 else '?'} b.end and b.start {'<=>'['LEG'.index(r2)] if r2 else '?'} a.end"
+            elif p.ret == ("bool", False) and all(known) and known:
+                bad = f"answers false although every tested bound allows the intersection (boundary {'excluded' if not strict else 'included'} wrongly)"
+            elif not p.ret or p.ret[0] != "bool":
+                bad = f"unrecognised result {p.ret}"
+        if bad:
+            r.fail(f"TimeWindow::{name}", bad, F.loc(fid))
+        else:
+            r.ok(f"TimeWindow::{name}", f"{len(paths)} orderings: a.start {'<' if strict else '<='} b.end and b.start {'<' if strict else '<='} a.end")
+    fid = TWM + "contains"
+    it = oe.Interp(F, fid, {1: oe.ref(oe.sym("w")), 2: oe.sym("t")}, fresh=True)
+    bad = None
+    try:
+        for p in it.explore():
+            r1, r2 = relation(p, "t", "w.start"), relation(p, "t", "w.end")
+            inside = (r1 in (None, "G", "E")) and (r2 in (None, "L", "E"))
+            if r1 is None and r2 is None:
+                bad = "the time is not compared with the window bounds"
+            elif p.ret == ("bool", True) and not (r1 in ("G", "E") and r2 in ("L", "E")):
+                bad = "answers true for a time outside [start, end]"
+            elif p.ret == ("bool", False) and inside and r1 is not None and r2 is not None:
+                bad = "answers false for a time inside [start, end] (boundaries belong to the window)"
+            elif p.ret == ("bool", False) and r2 is None and r1 in ("G", "E"):
+                bad = "answers false after testing the start bound only"
+    except oe.Undecided as e:
+        bad = f"not evaluable: {e}"
+    if bad:
+        r.fail("TimeWindow::contains", bad, F.loc(fid))
+    else:
+        r.ok("TimeWindow::contains", "start <= t <= end")
+    # optional breaks
+    BR = "vrp_core::construction::features::breaks::OptionalBreakConstraint::"
+
+    def fncall(i_, a, h, rl):
+        x = oe.strip_refs(a[0])
+        name = x[1].split(".")[-1] if x and x[0] == "sym" else "fn"
+        c = i_._choose(2, "fn:" + name)
+        i_._assump.append(("fn", name, bool(c)))
+        return ("bool", bool(c))
+    er = BR + "evaluate_route"
+    if er not in F.fns:
+        raise AnchorError(er)
+    it = oe.Interp(F, er, {1: oe.ref(oe.sym("self")), 2: oe.ref(oe.sym("route_ctx")), 3: oe.ref(oe.sym("job"))}, fresh=True, enum_results=True,
+                   call_models={"function::Fn::call": fncall, "::as_single": lambda i_, a, h, rl: oe.some(oe.ref(oe.sym("single"))),
+                                "ConstraintViolation::fail": _verdict("fail"), "ConstraintViolation::skip": _verdict("skip")})
+    try:
+        for p in it.explore():
+            f = {a[1]: a[2] for a in p.assumptions if a[0] == "fn"}
+            isb, bel = f.get("is_break_single_fn"), f.get("belongs_to_route_fn")
+            want = bool(isb) and bel is False
+            inst = f"OptionalBreak::evaluate_route [break={isb},own vehicle={bel}]"
+            if (p.ret != oe.NONE) == want:
+                r.ok(inst, "rejected" if want else "admitted")
+            else:
+                r.fail(inst, ("rejected" if p.ret != oe.NONE else "admitted") + " — a break is rejected on route level iff it is defined for another vehicle shift", F.loc(er))
+    except oe.Undecided as e:
+        r.fail("OptionalBreak::evaluate_route", f"not evaluable: {e}", F.loc(er))
+
+
 CAP_NAMES = ("capacity", "available", "resource_available", "resources", "resource_capacity")
 
 
@@ -1715,6 +1812,7 @@ def run(ctx):
     ctx.run("C01-Q1", "no comparison in constraint code relates a value to itself (a constant guard)", q1_no_self_comparison, floor=1)
     from .common import operator_agreement
     ctx.run("C01-O2", "load / cost / statistic operators: every impl Add/Sub/Mul computes with its own operator family", operator_agreement, floor=8)
+    ctx.run("C01-B1", "time window primitives (intersects / intersects_exclusive / contains) and break vehicle pinning (finite evaluation)", b1_break_and_window_laws, floor=4)
     ctx.run("C01-R3", "task order as a hard rule: comparison table, violation iff Greater, pairing of earlier / later activities", r3_tour_order_laws, floor=12)
     ctx.run("C01-L2", "relation pinning: contiguity, departure/arrival anchoring and vehicle pinning laws (finite evaluation of Rule::can_insert / evaluate_route)", l2_lock_rule_laws, floor=2)
     ctx.run("C01-G5", "compatibility / group admission laws (finite evaluation of the evaluate functions)", g5_group_compat_laws, floor=10)
